@@ -335,6 +335,23 @@ static std::string check_constants(const KV &c) {
         if (saved.size() != (size_t)ASCON_ISAP_SAVED_KEY_SIZE) return who + "the saved-key size used by the C API differs from ASCON_ISAP_SAVED_KEY_SIZE";
         if (!o->set_key(saved.data(), ASCON_ISAP_SAVED_KEY_SIZE)) return who + "set_key refuses ASCON_ISAP_SAVED_KEY_SIZE bytes";
     }
+    // the byte-array helper functions return exactly what the C functions return (C20 explores them in depth)
+    {
+        std::string text;
+        static const char *D = "0123456789abcdef";
+        for (size_t i = 0; i < key.size(); ++i) { text += D[key[i] >> 4]; text += D[key[i] & 15]; if (key[i] & 1) text += (key[i] & 2) ? "  " : "\n"; }
+        Bytes want(key.size() + 4);
+        int n = ascon_bytes_from_hex(want.data(), want.size(), text.c_str(), text.size());
+        ascon::byte_array got = ascon::bytes_from_hex(text), got2 = ascon::bytes_from_hex(text.c_str()), got3 = ascon::bytes_from_hex(text.c_str(), text.size());
+        if (n != (int)key.size() || Bytes(got.begin(), got.end()) != key || Bytes(got2.begin(), got2.end()) != key || Bytes(got3.begin(), got3.end()) != key)
+            return "ascon::bytes_from_hex of hexadecimal text with whitespace does not return the " + num(key.size()) + " bytes ascon_bytes_from_hex decodes (got " + num(got.size()) + ", " + num(got2.size()) + ", " + num(got3.size()) + " bytes)";
+        std::string h = ascon::bytes_to_hex(ascon::byte_array(key.begin(), key.end()));
+        Bytes hexc(2 * key.size() + 1);
+        ascon_bytes_to_hex((char *)hexc.data(), hexc.size(), key.data(), key.size(), 0);
+        if (h != std::string((const char *)hexc.data())) return "ascon::bytes_to_hex differs from ascon_bytes_to_hex";
+        ascon::byte_array bd = ascon::bytes_from_data(key.data(), key.size());
+        if (Bytes(bd.begin(), bd.end()) != key) return "ascon::bytes_from_data does not return the data";
+    }
     // hashing / MAC / KDF sizes
     { Buf h((size_t)ASCON_HASH_SIZE + 8, 0x5A); ascon_hash(h.p, m.p, 5); if (h.p[ASCON_HASH_SIZE - 1] == 0x5A && h.p[ASCON_HASH_SIZE - 2] == 0x5A) return "ascon_hash wrote fewer than ASCON_HASH_SIZE bytes"; for (size_t i = ASCON_HASH_SIZE; i < h.n; ++i) if (h.p[i] != 0x5A) return "ascon_hash wrote more than ASCON_HASH_SIZE bytes"; }
     { Buf h((size_t)ASCON_HASHA_SIZE + 8, 0x5A); ascon_hasha(h.p, m.p, 5); for (size_t i = ASCON_HASHA_SIZE; i < h.n; ++i) if (h.p[i] != 0x5A) return "ascon_hasha wrote more than ASCON_HASHA_SIZE bytes"; }
